@@ -105,32 +105,62 @@ func rulePosCapture(c *Ctx) []*Obligation {
 func ruleScanFallback(c *Ctx) []*Obligation {
 	o := newObl("SCAN.fallback")
 	fn := c.MustFunc("tokenizers", "AbstractTokenizer", "ReadNextToken")
-	key := c.FuncKey(fn) + "#unknown-fallback"
-	found := false
-	for _, b := range fn.Blocks {
-		var read *ssa.Call
-		nReads := 0
-		for _, in := range b.Instrs {
-			call, ok := in.(*ssa.Call)
-			if !ok {
-				continue
+	// derived from the exhaustive model of the loop: in each of the three situations without a usable
+	// token (no state for the character, the state returns nil, the state returns an empty token) and
+	// with no option set, the loop reads exactly one character and emits Unknown(<that character>)
+	names := c.constNames("tokenizers", "")
+	unk, _ := c.constByName("tokenizers", "Unknown")
+	type sit struct {
+		n          int
+		bad, undec string
+	}
+	sits := map[string]*sit{}
+	for _, run := range c.mainLoopRuns() {
+		if !(run.sc.stateNil || run.sc.tokNil || run.sc.tokEmpty) || run.sc.eof {
+			continue
+		}
+		anyOpt := false
+		for _, v := range run.sc.opts {
+			anyOpt = anyOpt || v
+		}
+		if anyOpt {
+			continue
+		}
+		g := run.sc.group(names)
+		if sits[g] == nil {
+			sits[g] = &sit{}
+		}
+		sits[g].n++
+		r := run.res
+		reads := 0
+		for _, op := range r.ops {
+			if op == "Read" {
+				reads++
 			}
-			if call.Call.IsInvoke() && call.Call.Method.Name() == "Read" {
-				read = call
-				nReads++
-			}
-			if cc, ok := c.callTo(call, "tokenizers", "", "NewToken"); ok && read != nil {
-				found = true
-				typ, isK := constInt(cc.Args[0])
-				unk, _ := c.constByName("tokenizers", "Unknown")
-				conv, isConv := cc.Args[1].(*ssa.Convert)
-				good := isK && typ == unk && isConv && conv.X == ssa.Value(read) && nReads == 1
-				o.check(good, key, c.Pos(call.Pos()), "Unknown token value = string(<the one character read>)", "the fallback token is not an Unknown token holding exactly the one character read (a constant or a different value is emitted, or more than one character is read)")
+			if op == "Unread" || op == "UnreadMany" {
+				reads += 100
 			}
 		}
+		switch {
+		case r.outcome == "opaque":
+			sits[g].undec = r.why
+		case r.outcome != "emit" || r.tok == nil || r.tok.typ != unk || r.tok.val != "char(read)" || reads != 1:
+			sits[g].bad = "the fallback token is not an Unknown token holding exactly the one character read (a constant or a different value is emitted, or the number of characters read is not one)"
+		}
 	}
-	if !found {
-		o.bad(key, c.Pos(fn.Pos()), "the main loop has no fallback that reads one character into an Unknown token")
+	for _, g := range []string{"character without a state", "state returns no token", "state returns an empty token"} {
+		key := c.FuncKey(fn) + "#unknown-fallback#" + g
+		st := sits[g]
+		switch {
+		case st == nil:
+			o.bad(key, c.Pos(fn.Pos()), "the model of the main loop has no scenario for: "+g)
+		case st.undec != "":
+			o.undecided(key, c.Pos(fn.Pos()), st.undec)
+		case st.bad != "":
+			o.bad(key, c.Pos(fn.Pos()), st.bad)
+		default:
+			o.ok(key, c.Pos(fn.Pos()), "one Read, token Unknown(<the character read>)")
+		}
 	}
 	// the mustache tokenizer returns the special-state token only when non-empty, otherwise falls through without consuming
 	mt := c.MustFunc("mustache/tokenizers", "MustacheTokenizer", "ReadNextToken")
